@@ -197,6 +197,28 @@ theorem c13_prefix_f10e_witness : demangle Fixes.none #[95, 90, 51, 97, 36, 67] 
 /-- F10g: `_ZUt_` — the parse succeeds without output and `demangle()` returns NULL -/
 theorem c13_prefix_f10g_witness : demangle Fixes.none #[95, 90, 85, 116, 95] = .null := by decide
 
+/-- F10i: `_ZZ3foovEN1A3barE_01B` (g++: `foo()::A::bar(B)` with `B` the second local class of `foo`):
+    `dd_discriminator` read the `_0` with `dd_number`, which took `01` and left `B` where a parameter type
+    was expected: the parse failed and the name came back unchanged. -/
+theorem c13_prefix_f10i_witness :
+    demangle { Fixes.all with discDigit := false }
+      #[95, 90, 90, 51, 102, 111, 111, 118, 69, 78, 49, 65, 51, 98, 97, 114, 69, 95, 48, 49, 66] =
+      .str [95, 90, 90, 51, 102, 111, 111, 118, 69, 78, 49, 65, 51, 98, 97, 114, 69, 95, 48, 49, 66] ∧
+    demangle Fixes.all
+      #[95, 90, 90, 51, 102, 111, 111, 118, 69, 78, 49, 65, 51, 98, 97, 114, 69, 95, 48, 49, 66] =
+      .str (bs%"foo::A::bar") := by decide +kernel
+
+/-- F10k: `_ZN1CILf3fc00000EE1mEv` (g++ -std=c++20: `C<1.5f>::m()`): the hex digits `3fc00000` of the
+    floating-point literal were not skipped (`dd_number` stops at the `f`), the `E` was not found and the
+    name came back unchanged. -/
+theorem c13_prefix_f10k_witness :
+    demangle { Fixes.all with floatLit := false }
+      #[95, 90, 78, 49, 67, 73, 76, 102, 51, 102, 99, 48, 48, 48, 48, 48, 69, 69, 49, 109, 69, 118] =
+      .str [95, 90, 78, 49, 67, 73, 76, 102, 51, 102, 99, 48, 48, 48, 48, 48, 69, 69, 49, 109, 69, 118] ∧
+    demangle Fixes.all
+      #[95, 90, 78, 49, 67, 73, 76, 102, 51, 102, 99, 48, 48, 48, 48, 48, 69, 69, 49, 109, 69, 118] =
+      .str (bs%"C::m") := by decide +kernel
+
 /-- with the repairs these inputs come back unchanged; `_Z3a$C` becomes `aa$C` (the code re-appends the
     text before an unmapped `$`, observation F10h — a wrong result, not a memory error, kept as is) -/
 example : demangle Fixes.all #[95, 90, 67, 49, 118] = .str [95, 90, 67, 49, 118] := by decide
